@@ -337,3 +337,103 @@ Lemma window_tracks_attempts_l ops : fault_free ops = true ->
 Proof.
   intros H. unfold arun. rewrite <- (spec_follow_ok ops ainit H); [reflexivity|]. apply (swf_run []).
 Qed.
+
+(* ---------------------------------------------------------------- the same under rejected NodePool / Node patches *)
+
+Lemma conflict_noop_true s : patch_needed s true = true -> step s RecordSuccessConflict = s.
+Proof.
+  unfold patch_needed. cbn [step].
+  destruct (tstatus (dry_run (buf s) true)); try discriminate. destruct (condn s); try discriminate; reflexivity.
+Qed.
+
+Lemma conflict_noop_false s : patch_needed s false = true -> step s RecordFailureConflict = s.
+Proof.
+  unfold patch_needed. cbn [step].
+  destruct (tstatus (dry_run (buf s) false)); try discriminate. destruct (condn s); try discriminate; reflexivity.
+Qed.
+
+Ltac red_rec := cbn -[Z.leb Z.sub step patch_needed launch_timeout reg_timeout abs sstep swf].
+
+Ltac split_conds :=
+  repeat (red_rec;
+    match goal with
+    | |- context [Z.leb ?a ?b] => destruct (Z.leb a b)
+    | |- context [patch_needed (step ?s RecordSuccessConflict) ?x] =>
+        match goal with H : patch_needed s true = true |- _ => rewrite (conflict_noop_true s H) end
+    | |- context [patch_needed ?s ?x] => let E := fresh "Ep" in destruct (patch_needed s x) eqn:E
+    end).
+
+Lemma reconcile_benign f now s c : benign_fault f = true -> swf s ->
+  let r := reconcile_claim fixed f now s c in
+  (recorded_once c = true -> recorded_once (snd (fst r)) = true) /\
+  abs (fst (fst r)) = fold_left (fun a b => sstep a (rec_of b)) (newly (concl (cobs_of c)) (concl (cobs_of (snd (fst r))))) (abs s) /\
+  swf (fst (fst r)).
+Proof.
+  intros Hb Hs. destruct c as [ok born node reg gone rc].
+  unfold reconcile_claim, registration, liveness, reg_check, fail_and_delete, update_health, concl, cobs_of, newly,
+    recorded_once, expected_rec, concluded.
+  destruct f; try discriminate Hb; destruct gone, reg, node, ok; split_conds.
+  all: repeat match goal with
+       | H : patch_needed ?s true = true |- context [step ?s RecordSuccessConflict] => rewrite (conflict_noop_true s H)
+       | H : patch_needed ?s false = true |- context [step ?s RecordFailureConflict] => rewrite (conflict_noop_false s H)
+       end.
+  all: red_rec.
+  all: split; [|split].
+  all: try reflexivity; try exact Hs; try (apply abs_step, Hs); try (apply swf_step, Hs).
+  all: try (destruct rc as [|x [|y rc]]; cbn; intros H; try discriminate H; try reflexivity; exact H).
+Qed.
+
+Lemma fault_free_benign ops : fault_free ops = true -> benign ops = true.
+Proof.
+  unfold fault_free, benign. induction ops as [|o ops IH]; cbn [forallb]; [reflexivity|].
+  intros H. apply andb_prop in H as [Ho Hops]. rewrite (IH Hops), andb_true_r.
+  destruct o as [ok|i|i f|d|e]; try reflexivity. destruct f; try discriminate Ho; reflexivity.
+Qed.
+
+Lemma astep_benign st o :
+  (match o with ARec _ f => benign_fault f | _ => true end) = true ->
+  swf (a_sys st) -> Forall (fun c => recorded_once c = true) (a_claims st) ->
+  spec_astep (abs (a_sys st)) (aobs_of st) o (aobs_of (astep fixed st o)) = abs (a_sys (astep fixed st o)) /\
+  swf (a_sys (astep fixed st o)) /\
+  Forall (fun c => recorded_once c = true) (a_claims (astep fixed st o)).
+Proof.
+  intros Hb Hs Hf.
+  destruct o as [ok|i|i f|d|e].
+  - destruct (spec_astep_ok st (ANew ok) eq_refl Hs) as [H1 H2]. split; [exact H1|split; [exact H2|]].
+    apply (astep_once (ANew ok) st eq_refl Hf).
+  - destruct (spec_astep_ok st (AJoin i) eq_refl Hs) as [H1 H2]. split; [exact H1|split; [exact H2|]].
+    apply (astep_once (AJoin i) st eq_refl Hf).
+  - unfold spec_astep, aobs_of. cbn [astep].
+    destruct (nth_error (a_claims st) i) as [c|] eqn:En.
+    + pose proof (reconcile_benign f (a_now st) (a_sys st) c Hb Hs) as Hr. cbv zeta in Hr.
+      destruct (reconcile_claim fixed f (a_now st) (a_sys st) c) as [[s' c'] tr]. cbn [fst snd] in Hr.
+      destruct Hr as (Hrec & Habs & Hswf). cbn [a_sys a_claims].
+      rewrite (nc_upd _ _ _ _ En). split; [symmetry; exact Habs|split; [exact Hswf|]].
+      apply Forall_upd; [exact Hf|]. intros _ _. apply Hrec. exact (Forall_nth _ _ _ _ Hf En).
+    + rewrite nc_same. split; [reflexivity|split; [exact Hs|exact Hf]].
+  - destruct (spec_astep_ok st (ATick d) eq_refl Hs) as [H1 H2]. split; [exact H1|split; [exact H2|exact Hf]].
+  - destruct (spec_astep_ok st (AEnv e) eq_refl Hs) as [H1 H2]. split; [exact H1|split; [exact H2|exact Hf]].
+Qed.
+
+Lemma arun_benign ops : forall st, benign ops = true -> swf (a_sys st) ->
+  Forall (fun c => recorded_once c = true) (a_claims st) ->
+  spec_follow fixed st (abs (a_sys st)) ops = abs (a_sys (fold_left (astep fixed) ops st)) /\
+  Forall (fun c => recorded_once c = true) (a_claims (fold_left (astep fixed) ops st)).
+Proof.
+  induction ops as [|o ops IH]; intros st Hb Hs Hf; cbn [spec_follow fold_left]; [split; [reflexivity|exact Hf]|].
+  unfold benign in Hb. cbn [forallb] in Hb. apply andb_prop in Hb as [Ho Hops].
+  destruct (astep_benign st o Ho Hs Hf) as (Ha & Hs' & Hf'). rewrite Ha. apply IH; assumption.
+Qed.
+
+Lemma window_tracks_attempts_benign ops : benign ops = true ->
+  spec_follow fixed ainit ([], CUnknown) ops = abs (a_sys (arun fixed ops)).
+Proof.
+  intros H. unfold arun. destruct (arun_benign ops ainit H (swf_run []) (Forall_nil _)) as [Ha _]. exact Ha.
+Qed.
+
+Lemma attempts_recorded_once_benign ops : benign ops = true ->
+  Forall (fun c => c_rec c = expected_rec c) (a_claims (arun fixed ops)).
+Proof.
+  intros H. unfold arun. destruct (arun_benign ops ainit H (swf_run []) (Forall_nil _)) as [_ Hf].
+  eapply Forall_impl; [|exact Hf]. intros c. apply recorded_once_spec.
+Qed.
